@@ -37,7 +37,7 @@ __CPROVER_assigns();
 void *_cbor_alloc_multiple(size_t item_size, size_t item_count)
 __CPROVER_requires(_cbor_malloc == v_malloc)
 __CPROVER_requires(g_malloc_calls < SIZE_MAX)
-__CPROVER_assigns(g_malloc_calls, g_last_req, g_refused, g_live)
+__CPROVER_assigns(ALLOC_GHOSTS)
 __CPROVER_ensures(__CPROVER_return_value != NULL ==> !__CPROVER_overflow_mult(item_size, item_count))
 __CPROVER_ensures(__CPROVER_return_value != NULL ==> g_last_req == item_size * item_count)
 __CPROVER_ensures(__CPROVER_return_value != NULL ==> g_malloc_calls == __CPROVER_old(g_malloc_calls) + 1)
